@@ -3,7 +3,7 @@
     (index out of bounds, unwrap on None, subtraction underflow, "symbol type mismatch", the
     explicit panic!s).  Termination bounds: see LR/Termination.v when present. *)
 From Coq Require Import List ZArith.
-From LV Require Import LR.Driver LR.Validator LR.Safety LR.Soundness LR.NoPanic LR.Main.
+From LV Require Import LR.Driver LR.Validator LR.Safety LR.Soundness LR.Completeness LR.Locality LR.NoPanic LR.Main.
 From LV Require Import Lex.Regex Lex.LexModel Lex.LexProps.
 Import ListNotations.
 
@@ -36,3 +36,18 @@ Theorem C08_lexer_terminates : forall fuel pats text consumed,
   length text < fuel -> ~ In LFuel (tokens pats fuel text consumed).
 Proof. exact tokens_terminate. Qed.
 Print Assumptions C08_lexer_terminates.
+
+(* termination on sentences: a bound on the loop iterations exists beyond which the answer is the
+   derivation tree, whatever the budget (fuel counts loop iterations and simulation steps) *)
+Theorem C08_terminates_on_sentences : forall A C, valid A C = true -> uses_recovery A = false ->
+  forall t, Completeness.wfp A t (Nt (start_nt A)) ->
+  exists n, forall fuel, n <= fuel -> exists s, drive A Completeness.no_fail fuel (map IOk (Soundness.yield t)) = (ROk t, s).
+Proof. intros A C Hv Hn. exact (Main.parse_ok_complete A C Hv). Qed.
+Print Assumptions C08_terminates_on_sentences.
+
+(* a run that ends (with any answer other than "budget exhausted") ends the same way under every
+   larger budget: the budget never changes an answer *)
+Theorem C08_answers_do_not_depend_on_the_budget : forall A orc, uses_recovery A = false ->
+  forall f input r s, drive A orc f input = (r, s) -> r <> RFuel -> forall f', f <= f' -> drive A orc f' input = (r, s).
+Proof. intros A orc Hn. exact (Locality.drive_mono A Hn orc). Qed.
+Print Assumptions C08_answers_do_not_depend_on_the_budget.
